@@ -382,7 +382,7 @@ impl Prop for C16 {
     }
     fn cases(&self, tier: Tier) -> u64 {
         match tier {
-            Tier::Quick => 1 << 19,
+            Tier::Quick => 1 << 20,
             Tier::Thorough => 1 << 25,
         }
     }
